@@ -52,12 +52,23 @@ Locs(nl) == [k \in 1..Len(nl) |-> nl[k].loc]
 DocNow(d) == IF docs[d] = "alt" THEN DocAlt[d] ELSE DocVal[d]
 Observable(e, q, d) == Locs(Find(Parse(QText[q], FALSE).v, DocNow(d), RegOfEnv(e)))
 
-Init == /\ env = [e \in Envs |-> [exists |-> e # "e2", f |-> "none"]]
-        /\ handles = <<>>
-        /\ docs = [d \in DIds |-> "base"]
-        /\ hist = <<>>
+\* Besides the empty history, exploration starts from a few prefixes that bounded depth would not get past:
+\* an environment that already has 'f' registered and a query using it compiled (and the same for the
+\* module-level environment); the prefix is part of the history, so the replay performs it too.
+Prefix(e) == << [op |-> "register", e |-> e, b |-> "ct"], [op |-> "compile", e |-> e, q |-> "q2", resp |-> "ok"],
+                [op |-> "compile", e |-> e, q |-> "q3", resp |-> "ok"] >>
+Init == /\ docs = [d \in DIds |-> "base"]
+        /\ \/ /\ env = [e \in Envs |-> [exists |-> e # "e2", f |-> "none"]]
+              /\ handles = <<>>
+              /\ hist = <<>>
+           \/ \E e0 \in {"e1", "mod"} :
+              /\ env = [e \in Envs |-> [exists |-> e # "e2", f |-> IF e = e0 THEN "ct" ELSE "none"]]
+              /\ handles = <<[e |-> e0, q |-> "q2"], [e |-> e0, q |-> "q3"]>>
+              /\ hist = Prefix(e0)
 
 Log(entry) == hist' = Append(hist, entry)
+\* histories that started from a prefix scenario only exercise what was prepared (apply / find_one / register / edit / newsub)
+Prefixed == Len(hist) >= 3 /\ hist[1].op = "register" /\ hist[2].op = "compile" /\ hist[3].op = "compile"
 
 Compile(e, q) ==
     /\ env[e].exists
@@ -72,6 +83,13 @@ Compile(e, q) ==
 Apply(h, d) ==
     /\ h \in 1..Len(handles)
     /\ Log([op |-> "apply", h |-> h, d |-> d, resp |-> Observable(handles[h].e, handles[h].q, d)])
+    /\ UNCHANGED <<env, handles, docs>>
+
+\* find_one on a compiled query: the first node or none - the rest of the evaluation is abandoned
+ApplyOne(h, d) ==
+    /\ h \in 1..Len(handles)
+    /\ LET all == Observable(handles[h].e, handles[h].q, d)
+       IN  Log([op |-> "applyone", h |-> h, d |-> d, resp |-> IF all = <<>> THEN <<>> ELSE <<all[1]>>])
     /\ UNCHANGED <<env, handles, docs>>
 
 EnvFind(e, q, d) ==
@@ -101,10 +119,10 @@ Edit(d) ==
     /\ UNCHANGED <<env, handles>>
 
 Next ==
-    /\ Len(hist) < MaxOps
-    /\ \/ \E e \in Envs, q \in QIds : Compile(e, q)
-       \/ \E h \in 1..MaxHandles, d \in DIds : Apply(h, d)
-       \/ \E e \in Envs, q \in QIds, d \in DIds : EnvFind(e, q, d)
+    /\ Len(hist) < MaxOps + (IF Prefixed THEN 3 ELSE 0)
+    /\ \/ (~Prefixed /\ \E e \in Envs, q \in QIds : Compile(e, q))
+       \/ \E h \in 1..MaxHandles, d \in DIds : Apply(h, d) \/ ApplyOne(h, d)
+       \/ (~Prefixed /\ \E e \in Envs, q \in QIds, d \in DIds : EnvFind(e, q, d))
        \/ \E e \in Envs, b \in {"ct", "cf"} : Register(e, b)
        \/ NewSub
        \/ \E d \in DIds : Edit(d)
